@@ -49,7 +49,7 @@ func c05(c *wk.Ctx) {
 	idx := 0
 	maxBlocks := c.Pick(256, 4096)
 	// ---- 1. block loop vs the IGE definition, every block count, several keys each
-	reps := c.Pick(6, 24)
+	reps := c.Pick(6, 96)
 	for nb := 1; nb <= maxBlocks; nb++ {
 		for rep := 0; rep < reps; rep++ {
 			if c.Mine(idx) {
